@@ -37,6 +37,68 @@ class Call:
         self.fn = fn  # optional override: callable target inside the interpreter
 
 
+class Fragment:
+    """A loop body of a real function, mechanically extracted on every run, with its free variables as parameters.
+    selector: {'for_iter': 'name'} | {'for_target': 'name'} | {'loop': ordinal}   (semantic anchors, not line numbers)"""
+
+    def __init__(self, func, selector, env):
+        self.func = func
+        self.selector = selector
+        self.env = env
+
+
+def find_loop(func_node, selector):
+    import ast
+    loops = []
+
+    class V(ast.NodeVisitor):
+        def visit_For(self, n):
+            loops.append(n)
+            self.generic_visit(n)
+
+        def visit_While(self, n):
+            loops.append(n)
+            self.generic_visit(n)
+    V().visit(func_node)
+    if 'loop' in selector:
+        return loops[selector['loop']]
+    out = []
+    for n in loops:
+        if isinstance(n, ast.For):
+            if 'for_iter' in selector and ast.unparse(n.iter) == selector['for_iter']:
+                out.append(n)
+            if 'for_target' in selector and ast.unparse(n.target) == selector['for_target']:
+                out.append(n)
+        elif 'while_test' in selector and ast.unparse(n.test) == selector['while_test']:
+            out.append(n)
+    if len(out) != 1:
+        raise LookupError('fragment selector %r matches %d loops' % (selector, len(out)))
+    return out[0]
+
+
+def real_fragment(frag):
+    """compile the selected loop body of the REAL function into a callable(env) -> locals"""
+    import ast
+    import importlib
+    import inspect
+    import textwrap
+    fn = resolve_real(frag.func)
+    fn = getattr(fn, '__wrapped__', fn)
+    src = textwrap.dedent(inspect.getsource(fn))
+    tree = ast.parse(src)
+    node = find_loop(tree.body[0], frag.selector)
+    names = sorted(frag.env)
+    body = [ast.For(target=ast.Name(id='__once', ctx=ast.Store()), iter=ast.Tuple(elts=[ast.Constant(0)], ctx=ast.Load()), body=node.body, orelse=[]),
+            ast.Return(value=ast.Call(func=ast.Name(id='locals', ctx=ast.Load()), args=[], keywords=[]))]
+    fd = ast.FunctionDef(name='__frag', args=ast.arguments(posonlyargs=[], args=[ast.arg(arg=n) for n in names], kwonlyargs=[], kw_defaults=[], defaults=[]),
+                         body=body, decorator_list=[], type_params=[])
+    mod = ast.Module(body=[fd], type_ignores=[])
+    ast.fix_missing_locations(mod)
+    ns = dict(vars(importlib.import_module(fn.__module__)))
+    exec(compile(mod, '<fragment of %s>' % frag.func, 'exec'), ns)
+    return lambda: ns['__frag'](**frag.env)
+
+
 class NS:
     """attribute bag for values named in setup()"""
 
@@ -150,6 +212,15 @@ class SymCtx:
     def localtime(self, t):
         return self.it.call(self.loader.load('time').ns['localtime'], [t], {})
 
+    def divmod(self, x, d):
+        """spec-side floor division by a positive divisor: (q, r) with x = d*q + r, 0 <= r < d"""
+        if not is_sym(x) and not is_sym(d):
+            return x // d, x % d
+        q = self.p.fresh_int('sq')
+        r = self.p.fresh_int('sr')
+        self.p.assume(z3.And(sx.lift_int(x) == d * q + r, r >= 0, r < d))
+        return q, r
+
 
 class ConcCtx:
     """Concrete context: named inputs come from a values dict (a counter-model or a sample);
@@ -224,6 +295,9 @@ class ConcCtx:
         import time
         time.tzset()
         return time.localtime(t)
+
+    def divmod(self, x, d):
+        return x // d, x % d
 
 
 def resolve_real(target):
